@@ -5,7 +5,7 @@
    public entry point Resolve recovers it into an error).  Definitions only. *)
 From Coq Require Import String Ascii.
 From Formula Require Export Sem.Builtins Syn.Ast.
-From Formula Require Import Lex.CaseMap Num.Sqrt.
+From Formula Require Import Lex.CaseMap Num.Sqrt Sem.TimeFormat.
 
 (* a host function of the data map: signature, the value it returns, whether it returns an error *)
 Record hostfn := mkHost { h_sig : gosig; h_result : value; h_fail : bool }.
@@ -235,7 +235,9 @@ Definition builtin_apply (local_off : Z) (name : list Z) (args : list value) : o
   | [VTime t; VStr s] =>
     if name_is name "useTimezone" then
       match zone_lookup s zones with Some o => Ok (VTime (mkTime (t_ns t) o)) | None => Err end
-    else Unk                                             (* timeFormat: layout rendering not modelled *)
+    else if name_is name "timeFormat" then
+      match time_format t s with Some r => Ok (VStr r) | None => Unk end   (* None: the zone abbreviation (MST) *)
+    else Unk
   | [VNum d] =>
     if name_is name "abs" then Ok (VNum (dec_abs d))
     else if name_is name "ceil" then Ok (VNum (dec_ceil d))
